@@ -20,7 +20,7 @@
     pre-image (hash lock, sender, recipient, amount); the harness checks the real SHA-256 values.
 
     Every statement is closed by [exact] of a lemma of [Htlc/Proofs.v]. *)
-From Irismod Require Import Htlc.Model Htlc.Proofs Htlc.Examples Htlc.Check Htlc.Sound Htlc.Passes Htlc.PassesEx.
+From Irismod Require Import Htlc.Model Htlc.Proofs Htlc.Examples Htlc.Check Htlc.Sound Htlc.Passes Htlc.PassesEx Htlc.ParamChange Htlc.CoreHist.
 
 (** ** Reachable states satisfy the invariant (induction over the history) *)
 Theorem reachable_invariant :
@@ -183,6 +183,21 @@ Theorem leaves_escrow_once_reachable :
     n_escrow_out id (st_log (reachable P b t0 ops)) = if openb c then 0%nat else 1%nat.
 Proof. intros P b t0 ops id c HP HE W. exact (leaves_escrow_once_lemma _ id c (proj1 (reach_inv P b t0 ops HP HE W))). Qed.
 Print Assumptions leaves_escrow_once_reachable.
+
+(** ... and along EVERY history whose accepted parameter changes keep the denoms, compatible with the usage
+    or not ([wf_core_run], Htlc/CoreHist.v): funds still leave escrow exactly once, and no open contract
+    reaches its expiration height (what is lost after an incompatible change is only that a claim with the
+    right secret must succeed: Props/C04.v [claim_may_fail_after_limit_cut]) *)
+Theorem leaves_escrow_once_every_history :
+  forall P b t0 ops id c, params_ok P -> escrow_empty b -> wf_core_run (init P b t0) ops ->
+    get id (st_contracts (reachable P b t0 ops)) = Some c ->
+    (locksb c = true -> n_escrow_out id (st_log (reachable P b t0 ops)) = if openb c then 0%nat else 1%nat)
+    /\ (c_state c = Open -> st_height (reachable P b t0 ops) < c_exp c).
+Proof.
+  intros P b t0 ops id c HP HE W Hg. destruct (core_reachable_lemma P b t0 ops HP HE W) as [C S].
+  split; [exact (leaves_escrow_once_core _ id c C Hg)|exact (S id c Hg)].
+Qed.
+Print Assumptions leaves_escrow_once_every_history.
 
 (** ** What the check evaluates lies inside these theorems: for every case accepted by the decidable
     guard [hyps_b] (evaluated by [vm_compute] on every case; a case outside it fails the check), the
